@@ -198,10 +198,26 @@ func templates(thorough bool) []tmpl {
 	return t
 }
 
+func init() {
+	// the model assumes that nothing touches an account after its destruction inside one block
+	for _, th := range []bool{false, true} {
+		for _, t := range templates(th) {
+			dead := map[int]bool{}
+			for _, o := range t.ops {
+				if dead[o.A] && o.K != "bal" {
+					panic("template " + t.name + ": operation on an account destroyed in the same block")
+				}
+				if o.K == "suicide" {
+					dead[o.A] = true
+				}
+			}
+		}
+	}
+}
+
 // histories enumerates, in order of length, all sequences of 1..maxLen templates.  Parent of block
-// i > 0: thorough = every earlier block and the empty state (all fork shapes); quick = the previous
-// block, plus for the last block of a history the block before the previous one / the empty state
-// (a sibling fork committed after its competitor).
+// i > 0 (allForks): every earlier block or the empty state, i.e. all fork shapes; otherwise the
+// previous block, plus for the last block the block before the previous one / the empty state.
 func histories(ts []tmpl, maxLen int, allForks bool, maxBig int, visit func(idx int64, h History, nbig int) bool) {
 	var idx int64
 	var rec func(h History, nbig int, want int) bool
@@ -518,27 +534,26 @@ func runHistory(h History, scale, failAt, mapVar int) (tr *trace) {
 			for _, o := range blk.Ops {
 				applyReal(st, o)
 			}
-			first := true
+			// Oracle guard (never a C03 verdict): what is readable from the state object before the
+			// commit must be what the model says (accounts destroyed in this block excepted: they stay
+			// readable until the commit deletes them).  A disagreement means the model does not describe
+			// this history; the history is cut here.  The guard does not touch the commit machinery.
+			var skip [nAcct]bool
+			for _, o := range blk.Ops {
+				if o.K == "suicide" {
+					skip[o.A] = true
+				}
+			}
+			if f, d := compareAPIEx(st, snap, &skip); f != "" {
+				guard = fmt.Sprintf("block %d %s: %s", bi, f, d)
+				return
+			}
 			commit := func() error {
 				r, err := st.Commit(true)
 				if err != nil {
 					return err
 				}
 				root = r
-				if first {
-					// Oracle guard (never a C03 verdict): the state the repository just computed, read
-					// while all its new nodes are still in memory, must be what the model says.  A
-					// disagreement means the model does not describe this history; the history is cut here.
-					first = false
-					if w, err := account.NewAccountDB(r, live); err != nil {
-						guard = "warm open: " + err.Error()
-					} else if f, d := compareAPI(w, snap); f != "" {
-						guard = fmt.Sprintf("block %d %s: %s", bi, f, d)
-					}
-					if guard != "" {
-						return nil
-					}
-				}
 				return live.TrieDB().Commit(r, false)
 			}
 			cerr = commit()
@@ -553,12 +568,12 @@ func runHistory(h History, scale, failAt, mapVar int) (tr *trace) {
 			tr.liveErr = fmt.Sprintf("panic:%s:%v", site, v)
 			return tr
 		}
-		if cerr != nil {
-			tr.liveErr = "commit-error:" + cerr.Error()
-			return tr
-		}
 		if guard != "" {
 			tr.modelDiff = guard
+			return tr
+		}
+		if cerr != nil {
+			tr.liveErr = "commit-error:" + cerr.Error()
 			return tr
 		}
 		tr.roots = append(tr.roots, root)
@@ -581,13 +596,27 @@ func short(b []byte) string {
 
 // compareAPI reads the whole universe through the public getters and compares with the snapshot.
 func compareAPI(st *account.AccountDB, snap *model) (field, detail string) {
+	return compareAPIEx(st, snap, nil)
+}
+
+// compareAPIEx: skip (optional) lists accounts whose own fields are not compared; with skip != nil
+// the code of accounts holding zero-length code is not read either (see the pre-commit guard).
+func compareAPIEx(st *account.AccountDB, snap *model, skip *[nAcct]bool) (field, detail string) {
 	probes := []string{"K0", "K1", "K2", "S0", "S1"}
 	for i, ad := range accts {
 		ma := &snap.A[i]
+		if skip != nil && skip[i] {
+			if b := st.GetBalance(ad); b.Cmp(new(big.Int).SetUint64(snap.Bal[i])) != 0 {
+				return "balance", fmt.Sprintf("A%d balance %s, snapshot %d", i, b, snap.Bal[i])
+			}
+			continue
+		}
 		if n := st.GetNonce(ad); n != ma.Nonce {
 			return "nonce", fmt.Sprintf("A%d nonce %d, snapshot %d", i, n, ma.Nonce)
 		}
-		if c := st.GetCode(ad); !bytes.Equal(c, ma.Code) {
+		if skip != nil && ma.Code != nil && len(ma.Code) == 0 {
+			// reading zero-length code memoises a load error in the account object
+		} else if c := st.GetCode(ad); !bytes.Equal(c, ma.Code) {
 			return "code", fmt.Sprintf("A%d code %s, snapshot %s", i, short(c), short(ma.Code))
 		}
 		for k, v := range ma.Slots {
@@ -797,7 +826,7 @@ func checkPrefixes(h History, scale, mapVar int, s *stats) (vs []viol, tr *trace
 		s.out("live:" + strings.SplitN(tr.liveErr, ":", 3)[0])
 	}
 	if tr.modelDiff != "" {
-		s.out("model-differs-from-warm-state") // blocks before the disagreement are still examined
+		s.out("model-differs-from-precommit-state") // blocks before the disagreement are still examined
 	}
 	log := tr.rec.log
 	// how many physical writes one commit was split into
@@ -915,7 +944,7 @@ func checkFaults(h History, scale, mapVar, nwrites int, s *stats, expired func()
 		}
 		s.nontrivial++
 		if tr.modelDiff != "" {
-			s.out("model-differs-from-warm-state")
+			s.out("model-differs-from-precommit-state")
 		}
 		if tr.liveErr != "" {
 			// the commit never reported success: the property promises nothing about that root
@@ -1146,13 +1175,13 @@ func main() {
 	fw.Main(fw.Check{
 		ID: "C03", Level: "fault_enumeration",
 		Rule: "evaluation = (history, write-granularity, map-order variant, prefix p of the physical write log) with all acknowledged and all on-disk-top-node roots cold-opened and walked, " +
-			"plus (history, failing write p) re-commit cases; histories = all sequences of 1..3 block templates x parent choices (quick: linear chain, and the last block also as a sibling fork; thorough: every earlier root or the empty state as parent of every block); " +
+			"plus (history, failing write p) re-commit cases; histories = all sequences of 1..3 block templates (quick 8, thorough 12 templates; at most 1 / 2 oversized blocks) x every choice of parent state for every block (any earlier root or the empty state: linear chains and all fork shapes); " +
 			"non-trivial = prefix strictly inside one commit (not at a block boundary, not 0) or a write fault that was actually injected",
 		Assumptions: []string{
 			"one Batch.Write / Put / Delete is atomic and ordered (LevelDB journal semantics); torn writes inside one batch and fsync loss on power failure are outside the bound",
 			"granularities: real value sizes (flush rule ValueSize() >= IdealBatchSize as shipped), and harness batches that over-report ValueSize (x50, x2^20) so that the repository's own flush rule places a batch boundary every 2 KB / after every node; every such boundary is reachable with real (larger) values",
 			"map iteration order inside the commit path is fixed by the harness (2 variants: first / last start position) so that the write log is a function of the case",
-			"the model keeps out of the empty-account deletion rule: every template that touches an account gives it a positive nonce; the model is cross-checked against the warm database after every block and a disagreement silences the case instead of flagging C03",
+			"the model keeps out of the empty-account deletion rule: every template that touches an account gives it a positive nonce; before every commit the model is cross-checked against what the state object itself returns (accounts destroyed in that block excepted) and a disagreement cuts the history there instead of flagging C03",
 			"write fault = the write returns an error and nothing of it reaches the disk; the harness then calls state.Commit + TrieDB().Commit again on the same objects (what AddBlockOnChain does with its verifiedBlocks cache)",
 		},
 		Run: run, Replay: replay,
